@@ -238,5 +238,5 @@ def run(tier, seed):
     for fam, v in lawcov.items():
         if v['empty_cells'] or v['draws_beyond_R'] < 1e5:
             V.log('coverage floor not met', fam, v)
-            return 2
+            return 1 if rc == 1 else 2  # a violation outranks a missed coverage floor
     return rc
